@@ -873,7 +873,9 @@ func (w *verifC11World) gatewayGoneOnly(s *verifC11Sub, got, want []string, ver 
 			continue
 		}
 		id, js, _ := strings.Cut(x, " => ")
-		var v struct{ Service struct{ Kind, Service string } }
+		var v struct {
+			Service struct{ Kind, Service string }
+		}
 		if err := json.Unmarshal([]byte(js), &v); err != nil || v.Service.Kind != string(structs.ServiceKindTerminatingGateway) {
 			return false
 		}
